@@ -28,8 +28,12 @@ func checkC02Srv(job *Job, res *Result) {
 		{"mp", "OBJECT", `{"type":"MultiPoint","coordinates":[[10,10],[-10,-10]]}`},
 		{"feat", "OBJECT", `{"type":"Feature","geometry":{"type":"Point","coordinates":[7,7]},"properties":{"a":1}}`},
 		{"empty", "OBJECT", gEmpty},
+		// points just inside a circle at its east / west extremes (the circle reaches further
+		// in longitude than the bounding box of its 64-gon, increasingly so towards the poles)
+		w("ce POINT 45 1.2718"), w("cw POINT 45 -1.2718"), w("cp POINT 79.6 25.5"), w("cq POINT 79.6 -25.5"), w("cn POINT 45.8992 0"), w("cs POINT 44.1008 0"),
 	}
 	areas := [][]string{
+		w("CIRCLE 45 0 100000"), w("CIRCLE 80 0 500000"), w("CIRCLE 45 0 99000"), w("CIRCLE 80 0 480000"),
 		w("BOUNDS -90 -180 90 180"), w("BOUNDS -1 -1 1 1"), w("BOUNDS 0 0 0 0"), w("BOUNDS -0.5 -0.5 0.5 0.5"), w("BOUNDS 33.000000123 -115.00000987 33.1 -115"),
 		w("BOUNDS 32 -116 33.000000123 -115.00000987"), w("BOUNDS -37.8000001 -122.3999999 -37.7 -122.3"), w("BOUNDS 89.9 179.9 90 180"), w("BOUNDS 6 6 8 8"),
 		w("CIRCLE 0 0 200000"), w("CIRCLE 33 -115 10000"), w("CIRCLE 7 7 1"), w("CIRCLE 0 0 0.5"), w("CIRCLE 10 10 100"),
